@@ -17,12 +17,9 @@ Definition usage_example_log : list (N * cmd) :=
 
 Example usage_example :
   let s := (run usage_example_log st0).1 in
-  CReachNC s /\ stored_usage s "nodes" = 2 /\ stored_usage s "services" = 3 /\ stored_usage s "service-names" = 3 /\
+  CReach s /\ stored_usage s "nodes" = 2 /\ stored_usage s "services" = 3 /\ stored_usage s "service-names" = 3 /\
   stored_usage s (connect_usage KTermGW) = 1 /\ stored_usage s native_usage = 1 /\ stored_usage s billable_usage = 1.
-Proof.
-  cbv zeta. split; [apply run_nc_reach; [constructor|vm_compute; reflexivity]|].
-  repeat split; vm_compute; reflexivity.
-Qed.
+Proof. cbv zeta. split; [apply CReach_run|]. repeat split; vm_compute; reflexivity. Qed.
 
 (* two services with virtual IPs; the connect-native instance advertises its service's address *)
 Example vip_example :
